@@ -160,7 +160,7 @@ def operand_models(tier, seed, meta, assoc_all=False):
     kinds: handle / integer / float / Boolean literal / compound, both orders): the tree as the
     objective, as one side of a constraint, or (logic trees) as an assertion."""
     out = []
-    for fam, nquick in (("d1", 500), ("d2num", 500), ("d2log", 300), ("assoc", 500), ("idlog", 400)):
+    for fam, nquick in (("d1", 500), ("d2num", 500), ("d2log", 300), ("assoc", 500), ("idlog", 400), ("idvar", 216)):
         cs, g, d = core.gen_cases(rewrite.SPEC_DIR, "ExprGen.tla", f"Gen_{fam}.cfg", "ex" + fam, workers=8)
         meta["operands:" + fam] = {"cases": len(cs), "gen_states": d, "gen_transitions": g}
         if tier == "quick" and fam == "assoc" and assoc_all:
@@ -188,7 +188,7 @@ def operand_models(tier, seed, meta, assoc_all=False):
             if lone_operand(t):
                 skipped += 1
                 continue
-            if ill and fam != "idlog" and (i + seed) % (1 if tier == "thorough" else 4):
+            if ill and fam not in ("idlog", "idvar") and (i + seed) % (1 if tier == "thorough" else 4):
                 skipped += 1
                 continue
             xy = {"lhs": {"op": "add", "a": {"op": "var", "name": "x"}, "b": {"op": "var", "name": "y"}}, "cmp": "le", "rhs": _num(3), "assert": False, "name": ""}
